@@ -198,8 +198,8 @@ def rule_a_c_d(repo, chk, w):
                   if pat.fact_matches(pat.compare_fact(n.ast, e.kind), 'state.timeout', ('==',), '0')]
     need(fire_edges, 'C06.a: _on_tick has no expiry test')
     for e in fire_edges:
-        wrap = [n for n in g.nodes if n.kind == 'stmt' and 'ExceptionWrapper(TimeoutError())' in src(n.ast) and
-                any(True for _r, _c in pat.method_calls(n.ast, 'registerTask'))]
+        wrap = [n for n in g.nodes if n.kind == 'stmt' and any(
+            c.args and all('ExceptionWrapper(TimeoutError())' in src(v) for v in pat.deref(on_tick, c.args[0])) for _r, c in pat.method_calls(n.ast, 'registerTask'))]
         p = Q.escapes(g, [e.dst], lambda n: n in wrap) if e.dst not in wrap else None
         chk.ob('a', on_tick.ref, 'on expiry the waiter is resumed with a wrapped TimeoutError', p is None and bool(wrap), loc(on_tick, e.src.ast),
                discr='timeout:resumed')
@@ -366,7 +366,8 @@ def rule_e(repo, chk):
     yf = [n for n in walk_no_defs(f.node) if isinstance(n, ast.YieldFrom)]
     ok = False
     if yf:
-        c = yf[0].value
+        cs = pat.deref(f, yf[0].value)       # `w = self.waitEvent(…); yield from w`
+        c = cs[0] if len(cs) == 1 else yf[0].value
         ok = isinstance(c, ast.Call) and call_name(c) in ('self.waitEvent', 'self.wait') and c.args and src(c.args[0]) == ev and \
             any(isinstance(a, ast.Starred) and src(a.value) == f'{ev}.channels' for a in c.args[1:]) and any(k.arg is None for k in c.keywords)
     chk.ob('e', f.ref, 'callEvent delegates to waitEvent for the same event object on its channels, passing the options', ok,
